@@ -135,5 +135,9 @@ class KDPseudoLabelWrapper(KDWrapper):
         if self.pseudo_labels.ndim == 1:
             return self.pseudo_labels.tolist()
         if self.pseudo_labels.ndim == 2:
-            return self.pseudo_labels.argmax(dim=1).tolist()
+            if self.threshold is None:
+                return self.pseudo_labels.argmax(dim=1).tolist()
+            # same rule as _getitem_class: keep the argmax only if its probability exceeds the threshold
+            probs, argmax = self.pseudo_labels.softmax(dim=1).max(dim=1)
+            return torch.where(probs > self.threshold, argmax, -1).tolist()
         raise NotImplementedError
